@@ -835,6 +835,10 @@ class Interp:
             if isinstance(e, ast.SetComp):
                 return set(out)
             return out
+        if isinstance(e, ast.NamedExpr):
+            v = self.ev(e.value, *env)
+            self.assign(e.target, v, *env)
+            return v
         if isinstance(e, ast.DictComp):
             out = []
             self._comp(e, 0, dict(loc or {}), globs, clo, out)
@@ -1037,6 +1041,10 @@ class InstanceModel(Namespace):
     def __init__(self, cls, **attrs):
         super().__init__(f"{cls._name} instance", **attrs)
         self.__dict__["_cls"] = cls
+
+    def model_setitem(self, key, value):
+        """``self[key] = value`` -> the (possibly overridden) __setitem__"""
+        self.model_getattr("__setitem__")(key, value)
 
     def model_getattr(self, attr):
         if attr in self.__dict__ and attr != "_cls":
